@@ -106,6 +106,24 @@ def run_one(it):
             got = results.get(api, "NO RETURN")
             rec["calls"].append({"api": api, "want": canon(want() if callable(want) else want), "got": canon(got if ok else "NO RETURN")})
 
+        def call_pair(apis):
+            """Several host service calls at the same time (separate application threads)."""
+            dn = {}
+
+            def body(api, fn):
+                try:
+                    results[api] = fn()
+                except Exception as exc:  # noqa: BLE001
+                    results[api] = f"EXC {type(exc).__name__}: {exc}"
+                dn[api] = True
+
+            for api, fn, _want in apis:
+                simrt.Thread(target=body, args=(api, fn), name=f"hostapp_{api}").start()
+            ok, why = s.run_until(lambda: len(dn) == len(apis), max_dt=200)
+            for api, _fn, want in apis:
+                got = results.get(api, "NO RETURN") if dn.get(api) else "NO RETURN"
+                rec["calls"].append({"api": api, "want": canon(want() if callable(want) else want), "got": canon(got)})
+
         def session(tag):
             call(tag + "clear_collection_events", lambda: (host.clear_collection_events(), "ok")[1], "ok")
             call(tag + "request_svs", lambda: host.request_svs([10]).get(), lambda: [eq.status_variables[10].value])
@@ -119,6 +137,9 @@ def run_one(it):
             call(tag + "request_ec_unchanged", lambda: host.request_ec(30).get(), [newv])
             call(tag + "list_ecs", lambda: [[x["ECID"], x["ECNAME"], x["ECMIN"], x["ECMAX"], x["ECDEF"]] for x in host.list_ecs([30]).get()],
                  [[30, "ec", 0, 500, 50]])
+            call_pair([(tag + "concurrent_request_svs", lambda: host.request_svs([10]).get(), lambda: [eq.status_variables[10].value]),
+                       (tag + "concurrent_request_ecs", lambda: host.request_ecs([30]).get(), lambda: [eq.equipment_constants[30].value]),
+                       (tag + "concurrent_list_svs", lambda: [[x["SVID"], x["SVNAME"], x["UNITS"]] for x in host.list_svs([10]).get()], [[10, "sv", "u"]])])
             call(tag + "enable_alarm", lambda: host.enable_alarm(40), 0)
             call(tag + "list_enabled_alarms", lambda: [x["ALID"] for x in host.list_enabled_alarms()], [40])
             call(tag + "list_alarms", lambda: [[x["ALID"], x["ALTX"]] for x in host.list_alarms([40])], [[40, "alarm text"]])
@@ -195,8 +216,8 @@ def run_one(it):
             s.run_until(lambda: dn2["v"], max_dt=100)
 
     s = simrt.run(main, seed=it["seed"], policy=it["policy"], switch_prob=0.15, max_vtime=1e5, wall_timeout=600,
-                  line_funcs=[tc.TcpConnection._start_receiver, tc.TcpConnection.disconnect], line_cost=1e-3,
-                  pct_depth=3, pct_horizon=3000,
+                  line_funcs=[tc.TcpConnection._start_receiver, tc.TcpConnection.disconnect, secsgem.common.Protocol.get_next_system_counter],
+                  line_cost=1e-3, pct_depth=3, pct_horizon=3000,
                   line_lag=((secsgem.gem.GemHandler.enable, secsgem.gem.GemHandler.disable), 0.6, 0.05) if it.get("lag") == "enable" else None,
                   wake_lag={"select": (("secsgem_hsmsProtocol_sendSelectReqThread",), 1.0, 0.05),
                             "app": (("hostapp_", "secsgem_gemHandler", "secsgem_hsmsProtocol"), 0.3, 0.05)}.get(it.get("lag")))
@@ -264,7 +285,7 @@ def run(ctx: Ctx):
     ctx.rule = ("sessions = {host active, equipment active} x {host first, equipment first} x receive buffer {64 KiB, 64 B} x "
                 "disable/enable cycles {none, host, equipment, both} x thread schedule (fifo / random / PCT, optionally with wake-up latency "
                 "of the select thread or of application / protocol helper threads, or the enabling thread descheduled between the "
-                "statements of enable() / disable()); each session: 21 host calls compared with the "
+                "statements of enable() / disable()); each session: 21 host calls + 3 concurrent ones compared with the "
                 "equipment's tables, 2 collection events, remote command; non-trivial = distinct configurations that completed a session")
     ctx.assumptions += ["link latency is zero in these runs (segmentation by 64-byte socket buffers); schedule space sampled",
                         f"bound for reaching communication: {BOUND} virtual seconds"]
